@@ -78,12 +78,12 @@ def gqlv(cmd, jobs, timeout=900, env=None, extra_args=()):
     return out, p
 
 
-def gqlv_isolated(cmd, job, timeout=20, env=None):
+def gqlv_isolated(cmd, job, timeout=20, env=None, cwd=None):
     """One job in a fresh process. Returns dict with exit status / signal / wall / result."""
     build_harness()
     t = time.time()
     try:
-        p = sh([GQLV, cmd], input=json.dumps(job) + "\n", timeout=timeout, env=env)
+        p = sh([GQLV, cmd], input=json.dumps(job) + "\n", timeout=timeout, env=env, cwd=cwd)
     except subprocess.TimeoutExpired:
         return {"timeout": True, "wall": time.time() - t}
     res = None
